@@ -440,6 +440,7 @@ def run(ctx):
     _copy_completeness(ctx, serialised)
     _version_gates(ctx)
     _error_protocol(ctx)
+    _fresh_record_per_iteration(ctx)
 
 
 def _byte_copy(ctx):
@@ -479,7 +480,54 @@ def _byte_copy(ctx):
             cond = lp.get("c")
             ok = cond is not None and not any(y.get("k") == "call" and callee_short(y) in ("get", "peek", "eof", "good") for y in walk(cond))
             ctx.ob("R12.5", "idf_input_string(%s)|count-controlled" % f.params[1]["t"].replace(" ", ""), ok, f.loc(lp), "the loop is controlled by the length read from the file: %s" % show(cond))
-    ctx.floor("R12.5", "byte-copy loops in idf_input_string", n, 2)
+    # a reader may also take the bytes in one block (istream::read(buf, length)): nothing data-dependent to judge there
+    n_block = 0
+    for f in db.fns("idf_input_string"):
+        loops = [x for x in f.walk() if x.get("k") in ("while", "for", "do")]
+        in_loop = {id(c) for lp in loops for c in walk(lp.get("body") or {})}
+        for c in f.walk():
+            if c.get("k") == "call" and callee_short(c) == "read" and id(c) not in in_loop:
+                n_block += 1
+                ctx.ob("R12.5", "idf_input_string(%s)|block-read" % f.params[1]["t"].replace(" ", ""), True, f.loc(c), "reads the payload with one read(buf, length)")
+    ctx.floor("R12.5", "byte-copy loops / block reads in idf_input_string", n + n_block, 2)
+    # R12.8: the C-string reader hands out a NUL-terminated buffer
+    ctx.rule("R12.8", "idf_input_string(istream&, const char *&) stores '\\0' into the buffer it allocated (new char[length + 1]) on every path before the buffer is handed to the caller")
+    n8 = 0
+    for f in db.fns("idf_input_string"):
+        if "char" not in f.params[1]["t"] or "basic_string" in f.sig:
+            continue
+        dest = f.params[1]["d"]
+        bufs = {}
+        for x in f.walk():
+            if x.get("k") == "decls":
+                for d in x["d"]:
+                    init = strip_casts(peel(d.get("init"))) if d.get("init") is not None else None
+                    if init is not None and init.get("k") == "new":
+                        bufs[d["d"]] = d["n"]
+        for x in f.walk():
+            t = assigned_target(x)
+            if not t or (local_ref(t[0]) or {}).get("d") != dest:
+                continue
+            src = local_ref(t[1])
+            if src is None or src.get("d") not in bufs:
+                continue
+            n8 += 1
+            b = src["d"]
+            terms = []
+            for y in f.walk():
+                ty = assigned_target(y)
+                if ty and const_int(ty[1]) == 0:
+                    lhs = strip_casts(peel(ty[0]))
+                    if lhs is not None and lhs.get("k") in ("idx", "sub", "index") and any((z.get("d") == b) for z in walk(lhs) if z.get("k") == "ref"):
+                        terms.append(y)
+                    elif lhs is not None and lhs.get("k") == "un" and lhs.get("op") == "*" and any((z.get("d") == b) for z in walk(lhs) if z.get("k") == "ref"):
+                        terms.append(y)
+            tb = [f.cfg.locate(y)[0] for y in terms if f.cfg.locate(y)]
+            lx = f.cfg.locate(x)
+            ok = bool(tb) and lx is not None and (lx[0] in tb or lx[0] not in f.cfg.reachable(cut_blocks=tb))
+            ctx.ob("R12.8", "idf_input_string(constchar*&)|buffer-terminated-before-handed-out", ok, f.loc(x),
+                   "`%s = %s` is %spreceded on every path by `%s[...] = '\\0'`: the module/library names read from a .in file are used as C strings" % (show(t[0]), bufs[b], "" if ok else "NOT ", bufs[b]))
+    ctx.floor("R12.8", "C-string readers", n8, 1)
     for f in db.fns("idf_output_string"):
         if "basic_string" not in f.sig and "std::string" not in f.sig:
             continue
@@ -1000,3 +1048,51 @@ def _loop_heads(cfg):
         if b in dom and s in dom.get(b, ()):
             heads.add(s)
     return heads
+
+
+def _fresh_record_per_iteration(ctx):
+    """R12.9: the readers of a record (InterrogateType::input & co.) fill only what the file holds: alternative names are
+    APPENDED, _array_size is read only when the array flag is set, fields of later minor versions keep what the object
+    held.  A record object that is reused for the next record of a list therefore leaks the previous record's data into
+    it - and the file re-serialises differently.  In every count-controlled reader loop the object that `in >> obj` fills
+    must be made inside the loop body.  (Seed S6-C12; same reasoning as R12.6 for strings.)"""
+    db = ctx.db
+    ctx.rule("R12.9", "in InterrogateDatabase::read_new and idf_input_vector, a class-typed object filled by `in >> obj` inside a loop is declared (or allocated with new) inside that loop's body")
+    n = 0
+    SCALAR = ("int", "unsigned int", "long", "unsigned long", "short", "char", "bool", "double", "float", "long long", "unsigned long long")
+    for f in db.functions:
+        if not (f.name == "InterrogateDatabase::read_new" or f.name.endswith("idf_input_vector")):
+            continue
+        for lp in f.walk():
+            if lp.get("k") not in ("while", "for", "do"):
+                continue
+            body = lp.get("body") or {}
+            inner_decls = {}
+            for d in walk(body):
+                if d.get("k") == "decls":
+                    for x in d["d"]:
+                        inner_decls[x["d"]] = x
+            for c in walk(body):
+                if c.get("k") != "call" or "operator>>" not in (c.get("f") or "") or not c.get("a"):
+                    continue
+                tgt = strip_casts(peel(c["a"][-1]))
+                via_ptr = False
+                if tgt is not None and tgt.get("k") == "un" and tgt.get("op") == "*":
+                    tgt = strip_casts(peel(tgt.get("e")))
+                    via_ptr = True
+                r = local_ref(tgt) if tgt is not None else None
+                if r is None:
+                    continue
+                ct = (r.get("ct") or r.get("t") or "").replace("const ", "").strip()
+                dd = inner_decls.get(r["d"])
+                cty = ((dd or {}).get("ct") or ct)
+                if not via_ptr and cty in SCALAR:
+                    continue      # a scalar is overwritten as a whole
+                n += 1
+                ok = dd is not None
+                if ok and via_ptr:
+                    init = strip_casts(peel(dd.get("init"))) if dd.get("init") is not None else None
+                    ok = init is not None and init.get("k") == "new"
+                ctx.ob("R12.9", "%s|%s|fresh-per-record" % (f.name + ("<%s>" % f.sig.split("vector<")[-1].split(">")[0] if "idf_input_vector" in f.name else ""), show(c["a"][-1])), ok, f.loc(c),
+                       "`%s` is filled by >> in a loop and is %s" % (show(c["a"][-1]), "made anew for each record" if ok else "declared OUTSIDE the loop: what one record leaves set shows up in the next"))
+    ctx.floor("R12.9", "record objects filled in reader loops", n, 6)
